@@ -31,13 +31,29 @@ func (n nopContextEncoder) Encode(_ context.Context, v interface{}) error {
 }
 
 type stanzaWriter struct {
-	s             *xmpp.Session
-	t             xmlstream.Encoder
-	sid           string
-	acked         bool
-	seq           uint16
-	to            jid.JID
+	s     *xmpp.Session
+	t     xmlstream.Encoder
+	sid   string
+	acked bool
+	seq   uint16
+	to    jid.JID
+	// writeDeadline is set by the application (SetDeadline, SetWriteDeadline)
+	// and read by whoever writes a packet: the application's own writes, but
+	// also the serve loop when it flushes the stream on the peer's <close/>.
+	deadlineM     sync.Mutex
 	writeDeadline time.Time
+}
+
+func (w *stanzaWriter) deadline() time.Time {
+	w.deadlineM.Lock()
+	defer w.deadlineM.Unlock()
+	return w.writeDeadline
+}
+
+func (w *stanzaWriter) setDeadline(t time.Time) {
+	w.deadlineM.Lock()
+	w.writeDeadline = t
+	w.deadlineM.Unlock()
 }
 
 func (w *stanzaWriter) Write(p []byte) (int, error) {
@@ -48,9 +64,9 @@ func (w *stanzaWriter) Write(p []byte) (int, error) {
 	}
 
 	ctx := context.Background()
-	if !w.writeDeadline.IsZero() {
+	if deadline := w.deadline(); !deadline.IsZero() {
 		var cancel context.CancelFunc
-		ctx, cancel = context.WithDeadline(ctx, w.writeDeadline)
+		ctx, cancel = context.WithDeadline(ctx, deadline)
 		defer cancel()
 	}
 
@@ -260,9 +276,9 @@ func (c *Conn) Close() error {
 	}
 
 	ctx := context.Background()
-	if !c.stanzaWriter.writeDeadline.IsZero() {
+	if deadline := c.stanzaWriter.deadline(); !deadline.IsZero() {
 		var cancel context.CancelFunc
-		ctx, cancel = context.WithDeadline(ctx, c.stanzaWriter.writeDeadline)
+		ctx, cancel = context.WithDeadline(ctx, deadline)
 		defer cancel()
 	}
 	respReadCloser, err := c.s.SendIQElement(ctx, closePayload(c.stanzaWriter.sid), stanza.IQ{
@@ -358,7 +374,7 @@ func (c *Conn) SetReadBuffer(max int) {
 // A zero value for t means I/O operations will not time out.
 func (c *Conn) SetDeadline(t time.Time) error {
 	c.readDeadline = t
-	c.stanzaWriter.writeDeadline = t
+	c.stanzaWriter.setDeadline(t)
 	return nil
 }
 
@@ -376,6 +392,6 @@ func (c *Conn) SetReadDeadline(t time.Time) error {
 // data was successfully written.
 // A zero value for t means Write will not time out.
 func (c *Conn) SetWriteDeadline(t time.Time) error {
-	c.stanzaWriter.writeDeadline = t
+	c.stanzaWriter.setDeadline(t)
 	return nil
 }
